@@ -59,3 +59,50 @@ Example exc_col_dom :
   num_view 1 [None; None] = [Some 1; Some 1]%N /\
   col_dom_any 4 false [Some 15; Some 3]%Z = false.
 Proof. repeat split. Qed.
+
+(* ---- transparency (TransparentC.v) ------------------------------------------------ *)
+(* the same values with the one-bit flag present in every subset: accepted by the
+   STRICT compressed ghost and by the uncompressed ghost *)
+Definition exc_vals_t : list (list value) :=
+  [[VInt 273; VInt 3; VBytes [65;66]%N; VInt 5000; VInt 2; VInt 7; VInt 1; VInt 9; VInt 0; VInt 10; VInt 20];
+   [VInt 280; VNone; VBytes [65;66;67;68;69]%N; VInt 5000; VInt 2; VInt 7; VInt 1; VInt 9; VInt 1; VNone; VInt 21];
+   [VNone; VInt 14; VNone; VInt 5000; VInt 2; VNone; VInt 0; VInt 100; VInt 0; VNone; VInt 20]].
+Definition exc_ghost_t : list (list value) :=
+  [[VDec 2730 1; VInt 3; VBytes [65;66;32;32]%N; VDec 500 (-1); VInt 2; VInt 7; VInt 1; VInt 9; VInt 0; VInt 10; VInt 20];
+   [VDec 2800 1; VNone; VBytes [65;66;67;68]%N; VDec 500 (-1); VInt 2; VInt 7; VInt 1; VInt 9; VInt 1; VNone; VInt 21];
+   [VNone; VInt 14; VBytes [255;255;255;255]%N; VDec 500 (-1); VInt 2; VNone; VInt 0; VInt 100; VInt 0; VNone; VInt 20]].
+
+Example exc_both_accept :
+  exists outs w w',
+    encode_compressed_ghost_strict exc_T exc_vals_t = Ok (outs, w, exc_ghost_t) /\
+    encode_ghost exc_T exc_vals_t = Ok (outs, w', exc_ghost_t) /\
+    length w = 358%nat /\ length w' = 336%nat.
+Proof.
+  eexists; eexists; eexists. split; [vm_compute; reflexivity|].
+  split; [vm_compute; reflexivity|]. split; reflexivity.
+Qed.
+
+(* D18 at template level: with the flag (one bit) missing in the second subset only,
+   both plain ghost encoders accept, and the two readers disagree on that entry:
+   missing compressed, 1 uncompressed.  The strict ghost refuses this input. *)
+Example exc_onebit_not_transparent :
+  exists outs w g w' g',
+    encode_compressed_ghost exc_T exc_vals = Ok (outs, w, g) /\
+    encode_ghost exc_T exc_vals = Ok (outs, w', g') /\
+    nth 6 (nth 1 g []) VNone = VNone /\ nth 6 (nth 1 g' []) VNone = VInt 1 /\
+    encode_compressed_ghost_strict exc_T exc_vals = Err EOther.
+Proof.
+  eexists; eexists; eexists; eexists; eexists.
+  split; [vm_compute; reflexivity|]. split; [vm_compute; reflexivity|].
+  split; [reflexivity|]. split; [reflexivity|]. vm_compute. reflexivity.
+Qed.
+
+Theorem onebit_template_refuted :
+  exists T vals outs w g w' g',
+    encode_compressed_ghost T vals = Ok (outs, w, g) /\
+    encode_ghost T vals = Ok (outs, w', g') /\ g <> g'.
+Proof.
+  destruct exc_onebit_not_transparent as (outs & w & g & w' & g' & E1 & E2 & H1 & H2 & _).
+  exists exc_T, exc_vals, outs, w, g, w', g'. split; [exact E1|]. split; [exact E2|].
+  intros ->. rewrite H1 in H2. discriminate.
+Qed.
